@@ -21,7 +21,7 @@ ASSUMPTIONS = ["itertools.tee children are independent as long as the teed query
 COUNTS = [-1, 0, 1, 2, 5]
 COUNTED = ["limit", "drop", "tail", "take", "tee"]
 ALIASES = {"limit": ["limit", "head", "first"], "drop": ["drop", "skip"], "tail": ["tail", "last"],
-           "first": ["first_one", "one"], "last": ["last_one"], "take": ["take"], "tee": ["tee"]}
+           "first": ["first_one", "one", "<for-break>"], "last": ["last_one"], "take": ["take"], "tee": ["tee"]}
 VIEWS = ["iter", "values", "locations", "items", "pointers"]
 
 
@@ -178,6 +178,12 @@ def impl(case):
                 dead.add(q)
                 queries.extend(news)
                 events.append(["new", len(news)])
+            elif meth == "<for-break>":
+                # the caller's own loop, abandoned after the first match: the query goes on from the second
+                m = None
+                for m in Q:
+                    break
+                events.append(["item", "none" if m is None else _mid(m)])
             elif kind in ("first", "last"):
                 m = getattr(Q, meth)()
                 events.append(["item", "none" if m is None else _mid(m)])
